@@ -70,6 +70,15 @@ def build():
         invariants={1: LoopInv('for child in value.children:', index='i', clauses=['len(children) == i'])},
         ensures=['True'])
     add_q_payload(w)
+    # a class (field type, constraint type) inside a hint: "models.<Name>" exactly for classes that live in
+    # django.db.models (the hint file imports that package as `models`); any other class by its bare name, with an
+    # import line of its own (get_evolution_content)
+    w.cls('ClassObj', {'__module__': K.Str, '__name__': K.Str})
+    w.contract(
+        'ClassSerialization.serialize_to_python', module=SER, serves=['C13'],
+        params={'cls': None, 'value': K.Ref('ClassObj')}, returns=K.Str, raises={}, modifies=[],
+        ensures=["result == ('models.' + value.__name__ if value.__module__.startswith('django.db.models') "
+                 "           else value.__name__)"])
     fam = Family('contracts.hints', w)
     from pyvc.runner import Lemma
     fam.lemmas.append(Lemma('q_payload_roundtrip', ['C06'], lemma_q_roundtrip))
